@@ -630,6 +630,30 @@ def common_summaries():
                     pending.append((s2, c2))
         return outs
 
+    @reg(r'<std::collections::hash_map::(Drain|Iter|Values|ValuesMut|Keys)<.*> as Iterator>::find::<|^__verif::map_find$')
+    def map_find(ex, st, fn, argv):
+        """first item the predicate accepts (the predicate is executed from MIR on a reference to each item in turn)"""
+        outs = []
+        for (s, o) in map_next(ex, st, fn, [argv[0]]):
+            if o.disc == 0:
+                outs.append((s, mk_option()))
+                continue
+            item = o.payloads[1].fields[0]
+            def post(ex_, st_, rv, item=item, itref=argv[0], clo=argv[1]):
+                return ('REDISPATCH', '__verif::map_find_after', [rv, itref, clo, item])
+            outs.append((s, ('CALL', argv[1], [Ref(Cell(item, 'find.item'))], ('custom', post))))
+        return outs
+
+    @reg(r'^__verif::map_find_after$')
+    def map_find_after(ex, st, fn, argv):
+        outs = []
+        for (s, c, hit) in ex.fork_on(st, argv[0].b, (argv[1], argv[2], argv[3])):
+            if hit:
+                outs.append((s, mk_option(c[2])))
+            else:
+                outs += map_find(ex, s, '__verif::map_find', [c[0], c[1]])
+        return outs
+
     # ---------------- Option / Result plumbing
     @reg(r'^Option::<.*>::take$')
     def opt_take(ex, st, fn, argv):
